@@ -1,5 +1,6 @@
 use crate::common::error::HqError;
 use crate::common::manager::info::GetManagerInfo;
+use crate::server::Senders;
 use crate::server::autoalloc::{AllocationId, QueueId, QueueParameters};
 use crate::server::client::{submit_job_desc, validate_submit};
 use crate::server::event::journal::JournalReader;
@@ -8,8 +9,8 @@ use crate::server::job::{Job, JobTaskState, StartedTaskData, SubmittedJobDescrip
 use crate::server::state::State;
 use crate::transfer::messages::{JobDescription, SubmitRequest};
 use crate::worker::start::RunningTaskContext;
+use chrono::Utc;
 use std::path::Path;
-use tako::control::ServerRef;
 use tako::gateway::TaskSubmit;
 use tako::resources::ResourceDescriptor;
 use tako::{InstanceId, ItemId, JobId, JobTaskId, Map, WorkerId};
@@ -55,7 +56,7 @@ impl RestorerJob {
         self,
         job_id: JobId,
         state: &mut State,
-        server_ref: &ServerRef,
+        senders: &Senders,
     ) -> crate::Result<Vec<TaskSubmit>> {
         log::debug!("Restoring job {job_id}");
         let mut job = Job::new(job_id, self.job_desc, self.is_open);
@@ -73,7 +74,7 @@ impl RestorerJob {
             }
             let mut new_tasks = submit_job_desc(
                 state,
-                server_ref,
+                &senders.server_control,
                 job_id,
                 submit.description().clone(),
                 submit.submitted_at(),
@@ -114,6 +115,13 @@ impl RestorerJob {
                 result.push(new_tasks);
             }
         }
+        // The journal may end between the record of the last task outcome and JobCompleted
+        // (e.g. the server has crashed). No task of such a job is going to report anything,
+        // so the job has to be completed here.
+        state
+            .get_job_mut(job_id)
+            .unwrap()
+            .check_termination(senders, Utc::now());
         Ok(result)
     }
 
@@ -181,11 +189,11 @@ impl StateRestorer {
     pub fn restore_jobs_and_queues(
         mut self,
         state: &mut State,
-        server_ref: &ServerRef,
+        senders: &Senders,
     ) -> crate::Result<(Vec<TaskSubmit>, Vec<Queue>)> {
         let mut jobs = Vec::new();
         for (job_id, job) in self.jobs {
-            let mut new_jobs = job.restore_job(job_id, state, server_ref)?;
+            let mut new_jobs = job.restore_job(job_id, state, senders)?;
             jobs.append(&mut new_jobs);
         }
         let queues: Vec<Queue> = self
